@@ -225,16 +225,36 @@ func c09reserve(c *core.Check) {
 					// the reserving call: the nearest preceding ensureBytesLen in the same statement list with no
 					// other write in between
 					var res *ast.CallExpr
+					off := rules.ExprString(sl.Low)
 					for j := i - 1; j >= 0; j-- {
+						// statements that neither move the offset nor write into the buffer may sit in between (logging, comments)
+						if as2, ok := list[j].(*ast.AssignStmt); ok {
+							touches := false
+							for _, l := range as2.Lhs {
+								if rules.ExprString(l) == off {
+									touches = true
+								}
+							}
+							if w2, _ := isBinaryCall(as2.Rhs[0], "Write"); w2 != nil || touches {
+								break
+							}
+							continue
+						}
 						es, ok := list[j].(*ast.ExprStmt)
 						if !ok {
 							break
 						}
 						call, ok := es.X.(*ast.CallExpr)
-						if fn := rules.Callee(info, call); ok && fn != nil && fn.Name() == "ensureBytesLen" && fn.Pkg() == pk.Types {
-							res = call
+						if !ok {
+							break
 						}
-						break
+						if fn := rules.Callee(info, call); fn != nil && fn.Name() == "ensureBytesLen" && fn.Pkg() == pk.Types {
+							res = call
+							break
+						}
+						if w2, _ := isBinaryCall(call, "Write"); w2 != nil {
+							break
+						}
 					}
 					if res == nil || len(res.Args) != 3 {
 						c.Bad("reserve-covers-write", key, where, wname+" writes into the unknown-fields buffer without a preceding ensureBytesLen: the write can run past the end of the buffer")
